@@ -31,6 +31,7 @@ FAULTS = {
     "write": {"WriteError": WriteError, "WriteTimeout": WriteTimeout},
 }
 # the documented fault kinds per operation (default menu)
+SOFT_FAULTS = {"ReadTimeout", "WriteTimeout", "TimeoutError", "trio.TooSlowError"}    # the operation timed out: the peer is still there
 DEFAULT_FAULT_KINDS = {
     "connect": ["ConnectError", "ConnectTimeout"], "start_tls": ["ConnectError", "ConnectTimeout"],
     "read": ["ReadError", "ReadTimeout"], "write": ["WriteError", "WriteTimeout"],
@@ -508,6 +509,10 @@ class SeqEnv:
         if self.faults > 0 and (self.fault_ops is None or self.fault_ops(op)):
             for name in self.fault_kinds.get(fk, ()):
                 menu.append((name, ("raise", name)))
+            if op.layer > 0:
+                # failures only a TLS layer can produce (OS-level alphabets of mc.simnet.fakeos)
+                for name in self.fault_kinds.get(fk + "_tls", ()):
+                    menu.append((name, ("raise", name)))
         if len(menu) == 1:
             ans = menu[0][1]
         else:
@@ -526,7 +531,7 @@ class SeqEnv:
             self.faults -= 1
             exc = FAULTS[fk][ans[1]](f"injected {ans[1]} at op {op.i}")
             self.injected.append((op.i, ans[1]))
-            if ans[1] in ("WriteError", "ReadError") and op.tr is not None:
+            if (ans[1] in ("WriteError", "ReadError") or (fk in ("read", "write") and ans[1] not in SOFT_FAULTS)) and op.tr is not None:
                 # a hard I/O error means the connection is gone: nothing further arrives from the peer
                 op.tr.peer_eof = True
             return ("raise", exc)
